@@ -110,8 +110,8 @@ fn injection(kind: u8, variant: u8) -> Injection {
         14 => (vec![], ["@&zzq{}", "#&zzq{}", "@&zzq{1%kg}", "@&zzq"][v % 4].into(), Extensions::COMPONENT_MODIFIERS, "dangling reference", Stage::Analysis),
         15 => (vec![], ["@&+zzq{}", "#+&zzq{}"][v % 2].into(), Extensions::COMPONENT_MODIFIERS, "new combined with reference", Stage::Analysis),
         16 => (vec!["Take @zzq{1%kg} first."], ["@&?zzq{}", "@&-zzq{}", "@-&zzq{2%kg}"][v % 3].into(), Extensions::COMPONENT_MODIFIERS, "modifier not inherited from the definition on a reference", Stage::Analysis),
-        17 => (vec!["Take @zzq{1%kg} first."], ["@&zzq{}(chopped)", "@&zzq{2%kg}(x)"][v % 2].into(), Extensions::COMPONENT_MODIFIERS, "note on a reference", Stage::Analysis),
-        18 => (vec!["Take #zzq{} first."], "#&zzq{}(big)".into(), Extensions::COMPONENT_MODIFIERS, "note on a reference", Stage::Analysis),
+        17 => (vec!["Take @zzq{1%kg} first."], ["@&zzq{}(chopped)", "@&zzq{2%kg}(x)", "@&zzq{}(-- é\nx)", "@&zzq{}([- ü -] x)", "@&zzq{}(x [- é -])"][v % 5].into(), Extensions::COMPONENT_MODIFIERS, "note on a reference", Stage::Analysis),
+        18 => (vec!["Take #zzq{} first."], ["#&zzq{}(big)", "#&zzq{}(-- é\n big)", "#&zzq{}([-é-]big)"][v % 3].into(), Extensions::COMPONENT_MODIFIERS, "note on a reference", Stage::Analysis),
         19 => (
             vec![">> [mode]: components", "@zzq{1%kg}", ">> [mode]: all"],
             ["@&zzq{2%kg}", "@&zzq{some}"][v % 2].into(),
@@ -236,6 +236,12 @@ fn check_inject(c: &InjectCase, st: &mut Stats) -> Verdict {
             inj.construct
         );
         vensure!(!res.is_valid(), "c07.validity-definition", "errors reported but is_valid() is true; source {src:?}");
+        // the diagnostic can be shown
+        match guard(|| render_report(res.report(), &src)) {
+            Ok(Ok(())) => {}
+            Ok(Err(e)) => vbail!("c07.report-unrenderable", "{}: {e}; source {src:?}", inj.what),
+            Err(p) => vbail!("c07.report-unrenderable", "{}: rendering the report panicked: {p}; source {src:?}", inj.what),
+        }
         let placed = errs.iter().any(|d| {
             if inj.whole_file {
                 // serde_yaml does not always give a location: a label, if present, lies in the front matter
